@@ -562,7 +562,12 @@ def c16_case(ctx: Ctx, case: dict):
                 continue
             if sexp.agrees(b[i], exact[nme], spread[nme]) == "bad":
                 ratio = b[i] / a[i] if a[i] else float("nan")
-                ctx.violate("C16/regular-point-changed/" + ("several-singularities" if several else f"{len(distinct)}-singularities"),
+                # the recorded finding multiplies the value by the number of distinct singular points (one Conditional per
+                # singular point, summed); any other change of a regular value is something else
+                nmax = max(found, len(distinct))
+                multiplied = np.isfinite(ratio) and abs(ratio - round(ratio)) <= 1e-9 * abs(ratio) and 2 <= round(ratio) <= nmax
+                ctx.violate("C16/regular-point-changed/" + (("several-singularities" if multiplied else "several-singularities/not-a-multiple") if several
+                                                            else f"{len(distinct)}-singularities"),
                             f"at a regular point {nme} = {a[i]!r} originally but {b[i]!r} after remove_singularities (ratio {ratio:.6g}; {len(distinct)} removable singular points)",
                             case={**case, "points": [pt]})
                 return
